@@ -651,6 +651,40 @@ func (g *coreGen) stmt(d int) Node {
 	if !g.inFn && g.r.Intn(4) == 0 {
 		return g.containerStmt(d)
 	}
+	if g.r.Intn(25) == 0 {
+		// conditions that are literals of every kind: a loop / branch is governed by the value, not by the token
+		lit := func() Node {
+			switch g.r.Intn(7) {
+			case 0:
+				return cn("num", "v", 0)
+			case 1:
+				return cn("str", "v", "")
+			case 2:
+				return cn("null")
+			case 3:
+				return cn("bool", "v", false)
+			case 4:
+				return cn("bin", "op", "-", "l", map[string]any(cn("num", "v", 2)), "r", map[string]any(cn("num", "v", 2)))
+			case 5:
+				return cn("str", "v", "a")
+			default:
+				return cn("num", "v", 1+g.r.Intn(3))
+			}
+		}
+		never := cn("block", "b", []any{map[string]any(cn("print", "args", []any{map[string]any(cn("str", "v", "in"))})), map[string]any(cn("break"))})
+		once := cn("block", "b", []any{map[string]any(cn("print", "args", []any{map[string]any(cn("str", "v", "body"))}))})
+		switch g.r.Intn(3) {
+		case 0:
+			return cn("while", "c", map[string]any(lit()), "b", map[string]any(never))
+		case 1:
+			return cn("if", "c", map[string]any(lit()), "th", map[string]any(once), "el", map[string]any(cn("block", "b", []any{map[string]any(cn("print", "args", []any{map[string]any(cn("str", "v", "other"))}))})))
+		default:
+			g.nloop++
+			v := fmt.Sprintf("f%d", g.nloop)
+			return cn("for", "init", map[string]any(cn("asg", "n", v, "op", "=", "e", map[string]any(g.num(0)))), "c", map[string]any(lit()),
+				"post", map[string]any(cn("inc", "n", v, "op", "++", "post", true)), "b", map[string]any(never))
+		}
+	}
 	if !g.inFn && g.r.Intn(20) == 0 {
 		v := g.pick("g0", "g1", "g2")
 		arg := cn("asg", "n", v, "op", g.pick("=", "+=", "-="), "e", map[string]any(g.num(1+g.r.Intn(6))))
